@@ -20,6 +20,13 @@ def answer (line : String) : String :=
       | some ts => StackParser.showState (StackParser.objects ts)
       | none => "fuel-exhausted"
     | _, _ => "bad-op"
+  | ["model.getobj", b, objid, h] =>
+    match b.toNat?, objid.toInt?, bytesOfHex h with
+    | some b, some objid, some data =>
+      match run b data with
+      | some ts => (StackParser.getobjToks objid (ts.map (·.2))).show
+      | none => "fuel-exhausted"
+    | _, _, _ => "bad-op"
   | ["model.lex", b, h] =>
     match b.toNat?, bytesOfHex h with
     | some b, some data =>
